@@ -42,12 +42,20 @@ class Contracts:
         if re.search(r"(^|::|>::)then_some::<.*>$", callee):
             self.used["bool::then_some(b, v): Some(v) iff b"] = self.used.get("bool::then_some(b, v): Some(v) iff b", 0) + 1
             return self.then_some
+        if re.search(r"^<.* as PartialEq(<.*>)?>::ne$", callee):
+            d = "PartialEq::ne(a, b) == !PartialEq::eq(a, b) (same symbol)"
+            self.used[d] = self.used.get(d, 0) + 1
+            return self.ne
         r = self._lookup(callee)
         if r is None and self.default_pure:
             d = "any other callee: pure opaque value of its arguments, no effect on the scalars checked (spec mode)"
             self.used[d] = self.used.get(d, 0) + 1
             return self.pure
         return r
+
+    def ne(self, ex, callee, argv, argkey, ty, pc):
+        eq = ex.typed_fresh(f"{callee[:-4]}::eq({argkey})", "bool")
+        return ("bool", f"(not {eq[1]})")
 
     def then_some(self, ex, callee, argv, argkey, ty, pc):
         return ("option", argv[0][1], argv[1])
